@@ -94,6 +94,7 @@ func Start(cfg Config) (*World, error) {
 	if cfg.StartCeiling <= 0 {
 		cfg.StartCeiling = 120 * time.Second
 	}
+	gcStale()
 	n := atomic.AddInt32(&worldN, 1)
 	tag := fmt.Sprintf("%s%d", cfg.Name, n)
 	w := &World{cfg: cfg, dir: filepath.Join(WorkRoot, fmt.Sprintf("%d-%s", os.Getpid(), tag))}
@@ -134,6 +135,23 @@ func Start(cfg Config) (*World, error) {
 		}
 	}
 	return w, nil
+}
+
+// gcStale removes scratch directories left behind by harness processes that no longer exist.
+func gcStale() {
+	for _, pat := range []string{filepath.Join(WorkRoot, "*"), "/tmp/verifsim-*"} {
+		ms, _ := filepath.Glob(pat)
+		for _, p := range ms {
+			base := strings.TrimPrefix(filepath.Base(p), "verifsim-")
+			var pid int
+			if _, err := fmt.Sscanf(base, "%d-", &pid); err != nil || pid <= 0 || pid == os.Getpid() {
+				continue
+			}
+			if err := syscall.Kill(pid, 0); err == syscall.ESRCH {
+				os.RemoveAll(p)
+			}
+		}
+	}
 }
 
 // Dir is the world's scratch directory (core logs, event files).
